@@ -72,6 +72,8 @@ type CallRec struct {
 	ListChanges      int    // versions of tables.list created by this call (independent of the model)
 	OpenDigest       string // digest of the view right after a successful open (porcupine read output)
 	TimeFaulted      bool   // a time fault hit this task while the call was executing
+	IOFaulted        bool   // one of this call's filesystem calls failed by injection
+	SelfStaleAtStart bool   // the handle was left behind its own commit by an earlier call that met an injected error
 	tfBefore         int
 	FailuresBefore   int
 	Done             bool
@@ -90,6 +92,9 @@ type HandleState struct {
 	Tr        *reftable.Addition // open Addition (between begin and commit/abort)
 	TrOp      int                // op instance that opened it
 	TrWritten []WrittenTable
+	// SelfStale: a call through this handle changed tables.list and then
+	// met an injected I/O error before it could refresh the handle.
+	SelfStale bool
 }
 
 type World struct {
@@ -125,13 +130,16 @@ type World struct {
 	CrashPoints       []string // class of the call each crash preceded
 	CrashEnum         bool
 	DeepRefsFor       bool
+	IOFaults          int             // calls failed by injection
+	IOFaultPoints     []string        // class of each injected failure (call kind, path class, errno, position bucket)
+	excused           map[string]bool // paths whose unlink was the injected failure: they may stay behind
 }
 
 func NewWorld(spec *RunSpec, sim *simrt.Sim) *World {
 	w := &World{Spec: spec, Sim: sim, ModelOK: true,
 		everListed: map[string]bool{}, tableCache: map[[2]uint64]*TableContent{},
 		Probes: map[string]int{}, curCall: map[int]*CallRec{}, owner: map[string]ownerInfo{},
-		inWindow: map[int]string{}, stateSet: map[uint64]bool{}, bias: map[string]bool{}}
+		inWindow: map[int]string{}, stateSet: map[uint64]bool{}, bias: map[string]bool{}, excused: map[string]bool{}}
 	w.Cfg = reftable.Config{
 		Unaligned:        spec.Cfg.Unaligned,
 		BlockSize:        spec.Cfg.BlockSize,
@@ -283,6 +291,19 @@ func (w *World) onEvent(ev *simrt.Event) {
 	}
 	ok := ev.Err == ""
 	cls := pathClassOf(ev.Path)
+	if ev.Inj {
+		w.IOFaults++
+		fp := fmt.Sprintf("%s:%s:%s", ev.Kind, cls, ev.Err)
+		if cr != nil {
+			cr.IOFaulted = true
+			fp = fmt.Sprintf("%s/%s#%d", cr.Kind, fp, cr.Events/8)
+		}
+		w.IOFaultPoints = append(w.IOFaultPoints, fp)
+		w.probe("ioerr-at-" + ev.Kind + ":" + cls)
+		if ev.Kind == "remove" {
+			w.excused[ev.Path] = true
+		}
+	}
 	// interleaving hash over shared-path events projected to (task, kind, class)
 	switch ev.Kind {
 	case "write", "readat", "read", "fstat", "close", "seek", "sync", "readblock", "sleep":
